@@ -14,6 +14,7 @@ step per distinct source."""
 import hashlib
 import os
 import random
+import re
 
 from . import bfgrun as R
 from . import gen as G
@@ -103,6 +104,23 @@ class CollideGen:
             sub = rng.choice(['mod', 'md', 'm', 'a', 'aa', 'lib', 'ab', 'sr'])
             inner = []
             cand = ['../' + p for p in rng.sample(pool, min(2, len(pool)))]
+            # prefix confusion: a sibling directory whose name merely *starts
+            # with* the submodule's name, plus the local file that a
+            # string-prefix (instead of component-prefix) computation would
+            # confuse it with: sub `a`, `../ab/x.c` and `b/x.c`
+            sibs = [p for p in pool if '/' in p and len(p.split('/')[0]) > 1]
+            if sibs and rng.random() < 0.4:
+                p0 = rng.choice(sibs)
+                first = p0.split('/')[0]
+                k = rng.randint(1, len(first) - 1)
+                if not any(q == first[:k] or q.startswith(first[:k] + '/')
+                           for q in pool):
+                    sub = first[:k]
+                    cand = ['../' + p0]
+                    local = p0[k:]
+                    proj.files[os.path.join(sub, local)] = G.c_source(local)
+                    cand.append(local)
+                    proj.features.add('prefix-confusion')
             own = '{}.c'.format(rng.choice(STEMS))
             proj.files[os.path.join(sub, own)] = G.c_source(own)
             cand.append(own)
@@ -140,7 +158,7 @@ class CollideGen:
         return proj
 
 
-def true_conflict(model):
+def true_conflict(model, backend='make'):
     """The conflicts the property names: an output named twice; two sources
     of one target differing only in their extension; without intermediate
     dirs, one source (stem) compiled for two targets."""
@@ -161,7 +179,8 @@ def true_conflict(model):
             if len(set(t['srcs'])) != len(t['srcs']):
                 return 'same-source-twice'
             return 'same-stem-different-extension'
-    if not model['intermediate_dirs']:
+    if not model['intermediate_dirs'] and backend != 'msbuild':
+        # (MSBuild objects always live in a per-project $(IntDir))
         seen = {}
         for i, t in enumerate(ts):
             for s in set(t['srcs']):
@@ -195,10 +214,14 @@ def file_dir_clash(model):
 class C05Case:
     def __init__(self, root, proj, cfg):
         self.w = W.World(root)
-        R.install_stubs(self.w, config=cfg)
+        msvc = proj.backend == 'msbuild'
+        R.install_stubs(self.w, config=cfg, msvc=msvc)
         proj.materialise(self.w)
         self.proj = proj
         self.sim = S.Sim(self.w, proj, cfg)
+        if msvc:
+            self.sim.env.update({'CC': 'cl', 'CXX': 'cl'})
+            self.sim.buildfile = 'collide.sln'
         self.violations = []
         self.trace = []
         self.stats = {}
@@ -242,7 +265,7 @@ class C05Case:
 def execute(root, proj, cfg, ops):
     c = C05Case(root, proj, cfg)
     w, sim, model = c.w, c.sim, proj.model
-    conflict = true_conflict(model)
+    conflict = true_conflict(model, proj.backend)
     configured = False
     from_scratch = True     # the next build starts with no objects
     try:
@@ -271,15 +294,23 @@ def execute(root, proj, cfg, ops):
                               r.output[-700:]), {'valid-script-rejected'})
                 elif conflict:
                     c.count('rejected.' + conflict)
-                    if os.path.exists(w.b(sim.buildfile)):
+                    # (the MSBuild writer lists the projects in the .sln
+                    # before the project files, which carry the rules, are
+                    # produced: the statement is about conflicting *rules*)
+                    if proj.backend != 'msbuild' and \
+                       os.path.exists(w.b(sim.buildfile)):
                         c.vio('accept-reject', 'configuration failed on a '
                               'conflict but still wrote ' + sim.buildfile,
                               {'conflict=' + conflict})
                 else:
                     c.count('accepted')
                     configured = True
+                    if proj.backend == 'msbuild':
+                        check_vcxproj_objects(c)
             elif not configured:
                 continue
+            elif proj.backend == 'msbuild' and k != 'regenerate':
+                continue        # nothing can execute a solution here
             elif k == 'build':
                 r = sim.backend_run([])
                 c.trace.append(['build', r.status, len(r.steps)])
@@ -360,10 +391,46 @@ def execute(root, proj, cfg, ops):
     return c
 
 
+CL_RE = re.compile(r'<ClCompile Include="([^"]+)"\s*(/>|>(.*?)</ClCompile>)',
+                   re.S)
+OBJ_RE = re.compile(r'<ObjectFileName>([^<]+)</ObjectFileName>')
+
+
+def check_vcxproj_objects(c):
+    """MSBuild: within one project every source must compile to its own
+    object (default $(IntDir)%(Filename).obj unless ObjectFileName is
+    given)."""
+    w = c.w
+    for base, dirs, files in os.walk(w.build):
+        for f in files:
+            if not f.endswith('.vcxproj'):
+                continue
+            with open(os.path.join(base, f)) as fh:
+                text = fh.read()
+            objs = {}
+            for m in CL_RE.finditer(text):
+                src = m.group(1)
+                om = OBJ_RE.search(m.group(3) or '')
+                if om:
+                    obj = om.group(1).lower()
+                else:
+                    stem = os.path.splitext(src.replace('\\', '/')
+                                            .split('/')[-1])[0]
+                    obj = '$(intdir)' + stem.lower() + '.obj'
+                if obj in objs:
+                    c.vio('single-writer', 'MSBuild project {}: {} and {} '
+                          'both compile to {}'.format(f, objs[obj], src,
+                                                      obj), {'msbuild'})
+                    return
+                objs[obj] = src
+    c.count('vcxproj_object_checks')
+
+
 def run_case(seed, root, params=None):
     params = params or {}
     rng = random.Random(seed)
-    backend = rng.choice(params.get('backends', ['make', 'ninja']))
+    backend = rng.choice(params.get('backends', ['make', 'make', 'ninja',
+                                                 'ninja', 'msbuild']))
     cfg = {'clock_mode': 'strict', 'bufsize': 4096, 'seed': seed,
            'jobs': rng.choice([1, 2, 4, 8])}
     for _ in range(20):
@@ -382,7 +449,7 @@ def run_case(seed, root, params=None):
     c = execute(root, proj, cfg, ops)
     return {'proj': proj, 'cfg': cfg, 'ops': ops,
             'violations': c.violations, 'trace': c.trace, 'stats': c.stats,
-            'conflict': true_conflict(proj.model)}
+            'conflict': true_conflict(proj.model, proj.backend)}
 
 
 PARAMS = {
@@ -453,11 +520,24 @@ def replay(rep, root):
 
 
 def minimise(rep, v, root, deadline):
-    from .minimise import minimise_replay
+    # only the operation list is shrunk: the conflict model is stored next to
+    # the script, so dropping statements would desynchronise the two
+    import time
+    from .minimise import ddmin, same_class
+    best = {'rep': rep, 'v': v}
 
-    def run(r):
+    def attempt(ops):
+        if time.monotonic() > deadline:
+            return False
+        cand = dict(best['rep'], ops=ops)
         try:
-            return replay(r, root)
-        except HarnessError:
-            return []
-    return minimise_replay(rep, v, run, deadline, max_runs=40)
+            vios = replay(cand, root)
+        except Exception:
+            return False
+        hit = same_class(vios, v)
+        if hit is not None:
+            best['rep'], best['v'] = cand, hit
+            return True
+        return False
+    ddmin(best['rep']['ops'], attempt, deadline)
+    return best['rep'], best['v']
